@@ -110,6 +110,7 @@ type loopInfo struct {
 	rangeIdx *ssa.Phi
 	backs    []backRec
 	closed   bool
+	entryEnv *env // spec environment on entry (for entry(e) in this loop's clauses)
 }
 
 type backRec struct {
@@ -126,26 +127,28 @@ type deferRec struct {
 }
 
 type FnVC struct {
-	w         *World
-	fn        *ssa.Function
-	c         *Contract
-	cmds      []string
-	n         int
-	obls      []*Obligation
-	declared  map[string]bool
-	fnName    string // package-relative name for obligation naming
-	pkgPath   string
-	mode      string // "verify"
-	unsup     []string
-	callOrd   map[string]int
-	sitesHit  map[*Clause]int
-	callsSeen map[string]int
-	depth     int
-	entrySt   *state
-	safety    bool
-	relyDef   *SpecDef
-	obNames   map[string]int
-	recs      map[string]*recInfo
+	insliceUse int       // 0 unknown, 1 yes, -1 no (see usesInslice)
+	frameLoop  *loopInfo // set while the frame of a loop with its own modifies clause is generated
+	w          *World
+	fn         *ssa.Function
+	c          *Contract
+	cmds       []string
+	n          int
+	obls       []*Obligation
+	declared   map[string]bool
+	fnName     string // package-relative name for obligation naming
+	pkgPath    string
+	mode       string // "verify"
+	unsup      []string
+	callOrd    map[string]int
+	sitesHit   map[*Clause]int
+	callsSeen  map[string]int
+	depth      int
+	entrySt    *state
+	safety     bool
+	relyDef    *SpecDef
+	obNames    map[string]int
+	recs       map[string]*recInfo
 }
 
 type recInfo struct {
@@ -185,6 +188,7 @@ type rangeRec struct {
 }
 
 type retRec struct {
+	blk   *ssa.BasicBlock
 	pos   token.Pos
 	reach string
 	vals  []*sym
@@ -455,6 +459,7 @@ func (vc *FnVC) hget(st *state, key string) string {
 			}
 		}
 		vc.heapWF(base, vc.heapSort(key), a)
+		vc.globalInvAssume(key, base)
 	}
 	return base
 }
@@ -520,7 +525,23 @@ func (vc *FnVC) heapWF(name, sort, a string) {
 func (vc *FnVC) freshHeap(prefix, sort, a string) string {
 	n := vc.fresh(prefix, sort)
 	vc.heapWF(n, sort, a)
+	if strings.HasPrefix(prefix, "h_") {
+		vc.globalInvAssume(prefix[2:], n)
+	}
 	return n
+}
+
+// globalInvAssume: global invariant `positive` (a counter that starts positive and is only ever incremented): holds
+// for every value of the variable that this function did not compute itself (entry, after a call); every function
+// under contract that may write the variable re-establishes it (implicit postcondition, see globalInvariants).
+func (vc *FnVC) globalInvAssume(key, term string) {
+	if !strings.HasPrefix(key, "V|") {
+		return
+	}
+	if d := vc.w.defs["global:"+key[2:]]; d != nil && d.Result == "positive" {
+		vc.w.assumedUsed["global "+key[2:]+" is positive initially (package initial value)"] = true
+		vc.emit(fmt.Sprintf("(assert (> %s 0))", term))
+	}
 }
 
 func (vc *FnVC) hset(st *state, key, term string) {
@@ -1048,6 +1069,16 @@ func (w *World) verifyFunction(fn *ssa.Function, c *Contract) (vc *FnVC, err err
 		if len(c.Results) > 0 && len(c.Results) != len(results) {
 			return nil, fmt.Errorf("%s: contract names %d results, function has %d", vc.fnName, len(c.Results), len(results))
 		}
+		if len(c.Records) > 0 {
+			// `records G = E` defines the ghost at exit; the postconditions speak about the recorded value
+			postSt = postSt.clone()
+			env.cur = postSt
+			if len(f.rets) == 1 && f.rets[0].blk != nil {
+				// locals of the function may be named when there is a single return statement
+				env.pointBlock, env.pointIdx = f.rets[0].blk, len(f.rets[0].blk.Instrs)-1
+			}
+			f.applyRecords(c, env, postSt, exitReach)
+		}
 		for i, e := range c.Ensures {
 			label := e.Label
 			if label == "" {
@@ -1061,6 +1092,7 @@ func (w *World) verifyFunction(fn *ssa.Function, c *Contract) (vc *FnVC, err err
 			vc.oblige("post", label, exitReach, t, fn.Pos(), e.Src, props)
 		}
 		vc.frameObligations(f, exitReach, entry, exitSt, c.Modifies, "frame", c.Props, true)
+		vc.globalInvariants(exitReach, entry, exitSt, fn.Pos(), c.Props)
 	}
 	cov := vc.oblige("cover", "exit", "true", exitReach, fn.Pos(), "the exit of the function is reachable under its preconditions and the assumed callee contracts", c.Props)
 	cov.Trivial = false
@@ -1143,6 +1175,11 @@ func (vc *FnVC) frameObligations(f *frame, guard string, st0, st1 *state, mods [
 	whole := map[string]bool{}
 	single := map[string][]string{} // key -> list of Ref terms
 	env := f.env(st0, st0)
+	if vc.frameLoop != nil && vc.frameLoop.entryEnv != nil {
+		// a loop's own modifies clause may name locals and loop-carried variables: evaluate it where the loop starts
+		env = vc.frameLoop.entryEnv.clone()
+		env.cur, env.old = st0, st0
+	}
 	for _, m := range mods {
 		switch {
 		case m.Star:
@@ -1743,6 +1780,8 @@ func (f *frame) enterLoop(li *loopInfo, b *ssa.BasicBlock, preds []*ssa.BasicBlo
 	}
 	f.bindEnclosing(li, envE)
 	f.bindRangeVisited(li, envE, true)
+	li.entryEnv = envE
+	envE.entryEnv = envE
 	for i, cl := range clauses {
 		label := cl.Label
 		if label == "" {
@@ -1780,6 +1819,8 @@ func (f *frame) enterLoop(li *loopInfo, b *ssa.BasicBlock, preds []*ssa.BasicBlo
 				for k, v := range names(entryVals) {
 					env0.vars[k] = v
 				}
+				env0.pointBlock, env0.pointIdx = b, 0
+				f.bindEnclosing(li, env0)
 			}
 			for _, m := range lmods {
 				switch {
@@ -1857,6 +1898,7 @@ func (f *frame) enterLoop(li *loopInfo, b *ssa.BasicBlock, preds []*ssa.BasicBlo
 	}
 	f.bindEnclosing(li, envH)
 	f.bindRangeVisited(li, envH, false)
+	envH.entryEnv = li.entryEnv
 	for _, cl := range clauses {
 		vc.assume(reach, envH.boolExpr(cl.E))
 	}
@@ -1955,6 +1997,7 @@ func (f *frame) closeLoops(visited map[*ssa.BasicBlock]bool) {
 		cond := vc.define(fmt.Sprintf("latch%d", li.ordinal), "Bool", or(conds...))
 		env := f.env(st, f.oldSt)
 		env.pointBlock, env.pointIdx = b, 0
+		env.entryEnv = li.entryEnv
 		f.bindEnclosing(li, env)
 		for _, in := range b.Instrs {
 			phi, ok := in.(*ssa.Phi)
@@ -2017,7 +2060,9 @@ func (f *frame) closeLoops(visited map[*ssa.BasicBlock]bool) {
 		// loop frame: relative to the function entry (or loop entry when the loop has its own modifies)
 		if f.c != nil && !f.inlined && !li.modAll {
 			if lm, own := f.c.LoopMod[li.ordinal]; own {
+				vc.frameLoop = li
 				vc.frameObligations(f, cond, li.preSt, st, lm, fmt.Sprintf("loopframe%d", li.ordinal), f.c.Props, false)
+				vc.frameLoop = nil
 			} else if f.c.HasMod {
 				vc.frameObligations(f, cond, f.oldSt, st, f.c.Modifies, fmt.Sprintf("loopframe%d", li.ordinal), f.c.Props, false, li.preSt)
 			}
@@ -2080,4 +2125,23 @@ func (f *frame) symTerm(s *sym) string {
 		}
 	}
 	return s.t
+}
+
+// globalInvariants: a global declared `positive` is positive again at the exit of every function that changed it.
+func (vc *FnVC) globalInvariants(reach string, entry, exit *state, pos token.Pos, props []string) {
+	var names []string
+	for n, d := range vc.w.defs {
+		if d.Kind == "global" && d.Result == "positive" {
+			names = append(names, n[len("global:"):])
+		}
+	}
+	sort.Strings(names)
+	for _, n := range names {
+		k := vc.regHeap("V|"+n, "Int") // registered here so that the obligation does not depend on what was translated before
+		t0, t1 := vc.hget(entry, k), vc.hget(exit, k)
+		if t0 == t1 {
+			continue
+		}
+		vc.oblige("post", "global_"+mangle(n)+"_stays_positive", reach, fmt.Sprintf("(> %s 0)", t1), pos, "global invariant: "+n+" > 0 at exit", props)
+	}
 }
